@@ -121,8 +121,6 @@ Proof.
       apply Qltb_false in E3. apply py_round_Q_comp. lra.
 Qed.
 
-Lemma param_16_Q_idem : forall x : Q, param_16_Q (z2q (param_16_Q x)) = param_16_Q x.
-Proof. intro x. apply param_16_Q_int. apply param_16_Q_range. Qed.
 
 Lemma all_lights_color_once_Q : forall c : color4 Q,
   param_color_Q (ints Q z2q (rounded_color_Q (ints Q z2q (param_color_Q c)))) = param_color_Q c.
@@ -133,8 +131,6 @@ Proof.
   rewrite !param_16_Q_idem. reflexivity.
 Qed.
 
-Lemma param_32_Q_idem : forall x : Q, param_32_Q (z2q (param_32_Q x)) = param_32_Q x.
-Proof. intro x. apply param_32_Q_int. apply param_32_Q_range. Qed.
 
 (* over exact rationals every path, `all` included, is exactly the canonical pipeline *)
 Theorem paths_all_clamp_Q : forall k m (c : color4 Q) on (d : Q),
